@@ -122,20 +122,37 @@ Section Blocks.
      ("mult", VQ mult); ("norm", VBool nm); ("warn", VBool w);
      ("ref_lens", lens_tensor N rl); ("hyp_lens", lens_tensor N hl)].
 
+  (* with any loop statement that has the property of [loop_tie] (sm_loop, or the loop inside sm_body) *)
+  Section AnyLoop.
+    Variable lp : stmt.
+    Hypothesis Hlp : forall st lf,
+      body_pre s ci cd cs R N H rf hf hl (lens_tensor N rl) (VQ mult) (VBool nm) (VBool w) lf st ->
+      lookup "max_hyp_steps" (vars st) = Some (VInt (Z.of_nat H)) ->
+      runs_to (body_pre s ci cd cs R N H rf hf hl (lens_tensor N rl) (VQ mult) (VBool nm) (VBool w)
+                 (fun i n => nth i (iter_col ci cd cs R H rf hf hl H 0 lf n) 0%Z)) (exec ext01 lp st).
+
+    Lemma main_run_gen : forall st, (forall n, (n < N)%nat -> (rl n <= R)%nat) ->
+      known st (A ++ stageB s cd R N) ->
+      runs_to (fun st' => known st' stageC) (exec ext01 (SSeq main_flags (SSeq lp main_rest)) st).
+    Proof.
+      intros st Hrl K. unfold stageA, stageB in K. open_known K.
+      unfold main_flags, sm_main. cbv iota. ifstep. ifstep. seqnorm.
+      eapply runs_to_seq.
+      - apply (Hlp st (fun i _ => Z.of_nat i * cd)%Z); [|assumption].
+        unfold body_pre. repeat split; assumption.
+      - intros st1 P1. destruct P1 as (Hexcl & Hmist & Hmask & Hprf & Hhl & Href & Hhyp & Hci & Hcs & Hdm & Hrl' & Hmu & Hno & Hwa & Hrow).
+        unfold main_rest, sm_main. cbv iota. unfold lens_tensor in *.
+        ifstep. ifstep. ifstep.
+        assign ltac:(evn; rewrite gather0_row by (intros j Hj; specialize (Hrl j Hj); lia); evn; reflexivity).
+        apply runs_to_ok. unfold stageC, lens_tensor. close_known.
+    Qed.
+  End AnyLoop.
+
   Lemma main_run : forall st, (forall n, (n < N)%nat -> (rl n <= R)%nat) ->
     known st (A ++ stageB s cd R N) -> runs_to (fun st' => known st' stageC) (exec ext01 sm_main st).
   Proof.
-    intros st Hrl K. unfold stageA, stageB in K. open_known K. rewrite sm_main_eq.
-    unfold main_flags, sm_main. cbv iota. ifstep. ifstep. seqnorm.
-    eapply runs_to_seq.
-    - apply (loop_tie s ci cd cs R N H rf hf hl (lens_tensor N rl) (VQ mult) (VBool nm) (VBool w) st
-               (fun i _ => Z.of_nat i * cd)%Z); [|assumption].
-      unfold body_pre. repeat split; assumption.
-    - intros st1 P1. destruct P1 as (Hexcl & Hmist & Hmask & Hprf & Hhl & Href & Hhyp & Hci & Hcs & Hdm & Hrl' & Hmu & Hno & Hwa & Hrow).
-      unfold main_rest, sm_main. cbv iota. unfold lens_tensor in *.
-      ifstep. ifstep. ifstep.
-      assign ltac:(evn; rewrite gather0_row by (intros j Hj; specialize (Hrl j Hj); lia); evn; reflexivity).
-      apply runs_to_ok. unfold stageC, lens_tensor. close_known.
+    rewrite sm_main_eq. apply main_run_gen. intros st lf P Hm.
+    exact (loop_tie s ci cd cs R N H rf hf hl (lens_tensor N rl) (VQ mult) (VBool nm) (VBool w) st lf P Hm).
   Qed.
 
   (* ---- sm_fin: mult, the normalisation, return ---------------------------------------------------------------- *)
